@@ -127,6 +127,17 @@ def total(vals):
     return r
 
 
+def line_balance(board, a):
+    """part (2) per line of the chosen direction (lines partition the board): the values carried to the line's new tiles add
+    up to the values of the line's old tiles.  Shape (4 directions, n lines); direction d is vacuous unless a == d."""
+    n = board.shape[0]
+    out = []
+    for d in range(4):
+        val = spec_move_dir(board, d)[2]
+        out.append(jnp.stack([(a != d) | (total([val[p] for p in line]) == total([tile_value(board[p]) for p in line])) for line in lines(n, d)]))
+    return jnp.stack(out)
+
+
 def flat(b):
     return [b[i, j] for i in range(b.shape[0]) for j in range(b.shape[1])]
 
@@ -207,7 +218,7 @@ def board_problem(env, cfg):
             "C09.move_left": U.move_left(board)[0] == spec_move_dir(board, 3)[0],
             "C08.move_reward_is_sum_of_created_tile_values": mr == sr,
             "C07.move_tile_sum.each_result_tile_is_worth_its_source_tiles": jnp.stack([tile_value(v) for v in flat(mb)]) == jnp.stack(flat(sval)),
-            "C07.move_tile_sum.source_tiles_all_accounted_for": total(flat(sval)) == total([tile_value(v) for v in flat(board)]),
+            "C07.move_tile_sum.source_tiles_all_accounted_for": line_balance(board, a),
             "C07.move_keeps_tiles_nonnegative_and_grows_by_at_most_one": (mb >= 0) & (mb <= jnp.max(board) + 1),
             "C04.can_move_iff_the_move_changes_the_board": U.can_move(board, a) == rule[a],
             "C04.can_move_iff_move_changes_the_board_impl": U.can_move(board, a) == jnp.any(mb != board),
@@ -247,7 +258,7 @@ def step_problem(env, cfg):
         b, b2 = s.board, s2.board
         rule = legal(b)
         ok = rule[a]
-        moved, srew, sval = spec_move(b, a)
+        moved, srew, _ = spec_move(b, a)
         mb, _ = U.move(b, a)  # the real callee, under its own contracts (Game2048.move@cfg: mb == moved, tile sum conserved)
         last = ts.step_type == K.LAST
         rule2 = legal(b2)
